@@ -193,6 +193,7 @@ def write_evidence(prop, tier, seed, plan, ev, nviol, undecided, wall):
         verus_runs=ev['verus_runs'],
         kani_harnesses=[dict((k_, v_) for k_, v_ in k.items() if k_ != 'cmd') for k in ev['kani_runs']],
         bounded=ev['bounded'],
+        cover_points=ev.get('cover_points', []),
         canaries=ev['canaries'],
         samples=(ev['samples'][:12] or [dict(note='no obligations generated')]),
         extraction_rewrites=sorted(ev['rewrites']), extraction_dropped=sorted(ev['dropped']),
